@@ -610,7 +610,6 @@ package http2
 //@ opt noframe=true
 //@ let o = len(dst)
 //@ ensures grow: len(r0) > o
-//@ ensures keep: old(bufsep(dst, src)) ==> r0[:o] == old(dst)
 //@ # raw strings: H bit clear, the length as a 7-bit prefix integer, then the octets themselves (RFC 7541 section 5.2)
 //@ ensures rawlen: !encode && len(src) < 2097152 ==> r0[o] < 128 && spec.intVal(r0[o:], 7) == len(src) && spec.intLen(r0[o:], 7) + len(src) == len(r0) - o
 //@ ensures hbit: encode ==> r0[o] >= 128
